@@ -1,5 +1,124 @@
 import PkVerif.Drv.Common
-/-! `pkmodel-c01`: stub (property not built yet). -/
+import PkVerif.Model.Stores
+import PkVerif.Model.Ref
+import PkVerif.Gen.Facts
+/-! `pkmodel-c01`: storage configurations behind a line protocol.
+
+    cfg <prefix expression>       e.g.  cfg overlay mem shard2 mem ns mem
+    recv <keyhex> <valhex> | fetch <k> | stat <k>… | enum <afterhex> <limit> | rm <k>…
+-/
 namespace Pk.Drv.C01
-def machine : Machine := { σ := Unit, init := (), step := fun s _ => (s, "bad-op") }
+open Pk Pk.RefMap Pk.Stores
+
+def tbl : Pk.Ref.Tbl := ⟨Gen.refSizes, Gen.testRefTypes, Gen.maxOtherDigestLen⟩
+
+/-- shard.go:74 `b.Sum32() % uint32(len(shards))` with two shards -/
+def route (k : Bytes) : Bool :=
+  match Pk.Ref.parse tbl k true with
+  | some r => (match Pk.Ref.sum32 r with | some v => v % 2 == 1 | none => false)
+  | none => false
+
+/-- the driver's instance of cond's sniffing predicate: the generated schema blobs all start with
+`{"camliVersion"` and no generated non-schema blob does -/
+def isSchema (v : Bytes) : Bool :=
+  (ofString "{\"camliVersion\"").isPrefixOf v
+
+partial def parseCfg : List String → Option (Cfg × List String)
+  | "mem" :: r => some (.mem, r)
+  | "memcache" :: n :: r => n.toNat?.map (fun m => (.memCache m, r))
+  | "ns" :: r => (parseCfg r).map (fun (c, r') => (.ns c, r'))
+  | "proxy" :: n :: r =>
+    match n.toNat?, parseCfg r with
+    | some m, some (o, r1) => (parseCfg r1).map (fun (c, r2) => (.proxy o c m, r2))
+    | _, _ => none
+  | "overlay" :: r =>
+    match parseCfg r with
+    | some (l, r1) => (parseCfg r1).map (fun (u, r2) => (.overlay l u, r2))
+    | none => none
+  | "shard2" :: r =>
+    match parseCfg r with
+    | some (a, r1) => (parseCfg r1).map (fun (b, r2) => (.shard2 a b, r2))
+    | none => none
+  | "replica2" :: r =>
+    match parseCfg r with
+    | some (a, r1) => (parseCfg r1).map (fun (b, r2) => (.replica2 a b, r2))
+    | none => none
+  | "cond2" :: r =>
+    match parseCfg r with
+    | some (a, r1) => (parseCfg r1).map (fun (b, r2) => (.cond2 a b, r2))
+    | none => none
+  | _ => none
+
+def showPairs (l : List (Bytes × Nat)) : String :=
+  " ".intercalate (l.map (fun p => s!"{toHexString p.1}:{p.2}"))
+
+def showOut : Out → String
+  | .sized n => s!"sized {n}"
+  | .bytes b => s!"bytes {toHexString b}"
+  | .notExist => "notexist"
+  | .refs l => ("refs " ++ showPairs l).trimRight
+  | .ok => "ok"
+  | .err => "err"
+
+/-- the running model: an `Impl` with its current state -/
+structure Running where
+  I : Impl
+  s : I.σ
+
+abbrev St := Option Running
+
+def allHex (ws : List String) : Option (List Bytes) := ws.mapM hexArg
+
+def insSorted (p : Bytes × Nat) : List (Bytes × Nat) → List (Bytes × Nat)
+  | [] => [p]
+  | q :: r => if ltB p.1 q.1 then p :: q :: r else q :: insSorted p r
+
+def step (st : St) (ws : List String) : St × String :=
+  match ws with
+  | "cfg" :: rest =>
+    -- everything after `//` describes the real tree (leaf kinds, sizes) for the harness only
+    match parseCfg (rest.takeWhile (· != "//")) with
+    | some (c, []) => let I := interp route isSchema c; (some ⟨I, I.init⟩, "ok")
+    | _ => (st, "bad-op")
+  | _ =>
+    match st with
+    | none => (st, "bad-op")
+    | some ⟨I, s⟩ =>
+      match ws with
+      | ["recv", k, v] =>
+        (match hexArg k, hexArg v with
+         | some k, some v => let (s', o) := I.step s (.recv k v); (some ⟨I, s'⟩, showOut o)
+         | _, _ => (st, "bad-op"))
+      | ["fetch", k] =>
+        (match hexArg k with
+         | some k => let (s', o) := I.step s (.fetch k); (some ⟨I, s'⟩, showOut o)
+         | none => (st, "bad-op"))
+      | ["enum", a, n] =>
+        (match hexArg a, n.toNat? with
+         | some a, some n => let (s', o) := I.step s (.enum a n); (some ⟨I, s'⟩, showOut o)
+         | _, _ => (st, "bad-op"))
+      | "stat" :: ks =>
+        (match allHex ks with
+         | none => (st, "bad-op")
+         | some ks =>
+           -- a batch is the sequence of single stats; the answer is canonicalised by key
+           let (s', acc, bad) := ks.foldl (fun (s, acc, bad) k =>
+             match I.step s (.stat k) with
+             | (s', .sized n) => (s', insSorted (k, n) acc, bad)
+             | (s', .notExist) => (s', acc, bad)
+             | (s', _) => (s', acc, true)) (s, [], false)
+           (some ⟨I, s'⟩, if bad then "err" else ("stats " ++ showPairs acc).trimRight))
+      | "rm" :: ks =>
+        (match allHex ks with
+         | none => (st, "bad-op")
+         | some ks =>
+           let (s', bad) := ks.foldl (fun (s, bad) k =>
+             match I.step s (.rm k) with
+             | (s', .ok) => (s', bad)
+             | (s', _) => (s', true)) (s, false)
+           (some ⟨I, s'⟩, if bad then "err" else "ok"))
+      | _ => (st, "bad-op")
+
+def machine : Machine := { σ := St, init := none, step := step }
+
 end Pk.Drv.C01
